@@ -14,6 +14,7 @@ import sys
 import tarfile
 from pathlib import Path
 
+READY = True
 LEVEL = 'exploration'
 TECHNIQUE = ('post-condition monitors on the real printer and slicer: round trip through the real parser, and an independent strict '
              'Metamath verifier run on every extracted slice; hash-seed sweep in fresh subprocesses')
